@@ -476,6 +476,24 @@ def newtype_rule(ctx):
         not [t for bb, t in b.calls() if classify_de(b, bb, t) and classify_de(b, bb, t)[0] in WIRE_KINDS]
     ctx.ob('NEWTYPE', 'transparent-on-both-sides', ser_transparent is not None and ser_transparent == de_transparent, short_loc(b.span),
            'serializer writes a newtype struct as its inner value: %s; deserializer answers deserialize_newtype_struct with visit_newtype_struct(self): %s' % (ser_transparent, de_transparent))
+    # ... and so is every other deserializer of this crate that hands VALUES to user types (map keys, the enum-hinting
+    # wrapper): `visit_newtype_struct(self)` keeps whatever that deserializer knows (forwarding to the inner deserializer's
+    # deserialize_newtype_struct would drop the wrapper and its hint).  Identifier-only deserializers are exempt.
+    IDENT_ONLY = {'DurationFieldNameDeserializer': 'record-field identifiers of a duration only', 'SchemaTypeNameDeserializer': 'variant identifiers only'}
+    n_sib = 0
+    for x in f.body_list:
+        if x.name != 'deserialize_newtype_struct' or x.j['kind'] == 'closure' or x is b or x.j.get('impl_trait') != 'serde_core::de::Deserializer':
+            continue
+        if not (x.id.startswith('de::') or x.id.startswith('<de::')):
+            continue
+        short = short_fn(fn_label(x)).split('::')[0].lstrip('<').split(' ')[0]
+        n_sib += 1
+        if any(k in fn_label(x) for k in IDENT_ONLY):
+            continue
+        vn_ = [t for bb, t in x.calls() if (t.get('callee') or '') == 'serde_core::de::Visitor::visit_newtype_struct' and not x.is_cleanup(bb)]
+        okx = len(vn_) == 1 and origin(x, vn_[0]['args'][1]).params() == {1}
+        ctx.ob('NEWTYPE', 'sibling/%s' % fn_label(x).split(' as ')[0].lstrip('<').rsplit('::', 1)[-1], okx, short_loc(x.span),
+               '%s answers deserialize_newtype_struct with visit_newtype_struct(self): %s' % (fn_label(x).split(' as ')[0].lstrip('<').rsplit('::', 1)[-1], okx))
 
 
 def index_rule(ctx):
